@@ -69,7 +69,8 @@ GoodPair(p, ps) == Len(Split(p, ps)) = 2 /\ Split(p, ps)[1] # <<>>
 Fill(c, dflt) == IF Len(c.w) = 0 THEN dflt ELSE c.w[1]
 NA == <<"N", "/", "A">>                                                    \* fill-empty: "defaults to N/A"
 \* "lexically ascending" on the key alphabet of the case space
-KeyRank == ("a" :> 1) @@ ("b" :> 2) @@ ("c" :> 3) @@ ("d" :> 4)
+KeyRank == ("a" :> 1) @@ ("b" :> 2) @@ ("c" :> 3) @@ ("d" :> 4) @@ ("e" :> 5) @@ ("f" :> 6) @@ ("g" :> 7) @@ ("h" :> 8)
+           @@ ("i" :> 9) @@ ("j" :> 10) @@ ("l" :> 12) @@ ("m" :> 13) @@ ("n" :> 14) @@ ("o" :> 15)
 Ranked(r) == \A i \in 1..Len(r) : r[i][1] \in DOMAIN KeyRank
 Ascending(ks) == \A i \in 1..(Len(ks) - 1) : KeyRank[ks[i]] < KeyRank[ks[i + 1]]
 
@@ -331,8 +332,8 @@ Weak1(c, r, o) ==
          /\ FieldsNotIn(SubSeq(o, m + 1, Len(o)), SetOf(c.f)) = FieldsNotIn(SubSeq(r, m + 1, Len(r)), SetOf(c.f))
     [] c.v = "sort-within-records" ->       \* "-f: Sort only these keys; others preserve record order"
          /\ SameBag(o, r)
-         /\ FieldsNotIn(o, SetOf(c.f)) = FieldsNotIn(r, SetOf(c.f))
-         /\ (Ranked(FieldsIn(r, SetOf(c.f))) => Ascending(KeysOf(FieldsIn(o, SetOf(c.f)))))
+         /\ (c.o = "-f" => FieldsNotIn(o, SetOf(c.f)) = FieldsNotIn(r, SetOf(c.f)))
+         /\ (c.o = "-f" /\ Ranked(FieldsIn(r, SetOf(c.f))) => Ascending(KeysOf(FieldsIn(o, SetOf(c.f)))))
     [] c.v = "nest-fields" ->
          IF c.o \in {"explode-pairs-fields"} THEN ~Has(r, NestField(c)) => o = r
          ELSE FieldsNotIn(o, Touched(c, r)) = FieldsNotIn(r, Touched(c, r))
@@ -347,6 +348,7 @@ Allowed1(c, r, o) == IF Finite1(c, r) THEN o \in Cands1(c, r) ELSE Weak1(c, r, o
 Blocks(c, r) ==
   CASE c.v = "nest-explode-records" -> {Exploded(c, r)}
     [] c.v = "reshape-w2l" -> W2LBlocks(c, r)
+    [] c.v \in PerRecord -> {<<o>> : o \in Cands1(c, r)}          \* (used for chains; needs Finite1(c, r))
 BlocksDomain(c, r) ==
   CASE c.v = "nest-explode-records" -> ExplodeDomain(c, r)
     [] c.v = "reshape-w2l" -> W2LDomain(c, r)
@@ -370,7 +372,7 @@ InDomain(c, s) ==      \* outside it the reference says nothing this specificati
     [] c.v = "nest-implode-records" -> \A i \in 1..Len(s) : Has(s[i], NestField(c)) => Get(s[i], NestField(c)) # <<>>
     [] OTHER -> TRUE
 
-Allowed(c, s, out) ==
+Allowed0(c, s, out) ==
   CASE ~InDomain(c, s) -> TRUE
     [] c.v \in PerRecord -> Len(out) = Len(s) /\ \A i \in 1..Len(s) : Allowed1(c, s[i], out[i])
     [] c.v \in MultiEmit -> out \in StreamCands(c, s)
@@ -380,14 +382,14 @@ Allowed(c, s, out) ==
     [] c.v = "reshape-l2w" -> L2WAllowed(c, s, out)
 
 \* one allowed outcome, and whether it is the only one
-Expected(c, s) ==
+Expected0(c, s) ==
   CASE c.v \in PerRecord -> [i \in 1..Len(s) |-> IF Finite1(c, s[i]) THEN CHOOSE o \in Cands1(c, s[i]) : TRUE ELSE s[i]]
     [] c.v \in MultiEmit -> CHOOSE o \in StreamCands(c, s) : TRUE
     [] c.v = "regularize" -> Regularized(s)
     [] c.v = "unsparsify" -> Unsparsified(c, s)
     [] c.v = "nest-implode-records" -> ImplodedRecordsCanon(c, s)
     [] c.v = "reshape-l2w" -> L2WCanon(c, s)
-Deterministic(c, s) ==
+Deterministic0(c, s) ==
   /\ InDomain(c, s)
   /\ CASE c.v \in PerRecord -> \A i \in 1..Len(s) : Finite1(c, s[i]) /\ Cardinality(Cands1(c, s[i])) = 1
        [] c.v \in MultiEmit -> Cardinality(StreamCands(c, s)) = 1
@@ -399,11 +401,55 @@ Deterministic(c, s) ==
        [] c.v = "reshape-l2w" -> /\ L2WRect(c, s) /\ \A i \in 1..Len(s) : IsLong(c, s[i])
                                  /\ \A i, j \in 1..Len(s) : KeysOf(OthersKV(c, s[i])) = KeysOf(OthersKV(c, s[j]))
 
+\* ---------------------------------------------------------------- two verbs chained with `then`
+\* A chain configuration is [v |-> "chain", o |-> name, ...]; its parts are fixed here.  The second verb works on the
+\* very record objects the first one left behind, so this is where a stale key index or a broken link shows; the
+\* inverse pairs of the property statement are among the chains.
+Cfg(v, o, f, p, w) == [v |-> v, o |-> o, f |-> f, p |-> p, w |-> w]
+Semi == <<";", ":">>
+ChainParts(c) ==
+  CASE c.o = "rename-back"        -> <<Cfg("rename", "", <<"a", "x">>, <<>>, <<>>), Cfg("rename", "", <<"x", "a">>, <<>>, <<>>)>>
+    [] c.o = "rename-cut"         -> <<Cfg("rename", "", <<"a", "x">>, <<>>, <<>>), Cfg("cut", "-o", <<"x", "b">>, <<>>, <<>>)>>
+    [] c.o = "rename-r-reorder"   -> <<Cfg("rename", "-r", <<"a", "x">>, <<>>, <<>>), Cfg("reorder", "", <<"x">>, <<>>, <<>>)>>
+    [] c.o = "rename-sort"        -> <<Cfg("rename", "", <<"d", "a">>, <<>>, <<>>), Cfg("sort-within-records", "", <<>>, <<>>, <<>>)>>
+    [] c.o = "reorder-rename"     -> <<Cfg("reorder", "-e", <<"a">>, <<>>, <<>>), Cfg("rename", "", <<"a", "x">>, <<>>, <<>>)>>
+    [] c.o = "reorder-cut"        -> <<Cfg("reorder", "", <<"c", "a">>, <<>>, <<>>), Cfg("cut", "-x", <<"a">>, <<>>, <<>>)>>
+    [] c.o = "cut-template"       -> <<Cfg("cut", "-x", <<"b">>, <<>>, <<>>), Cfg("template", "", <<"a", "z", "c">>, <<>>, <<>>)>>
+    [] c.o = "label-rename"       -> <<Cfg("label", "", <<"x", "y">>, <<>>, <<>>), Cfg("rename", "", <<"x", "z">>, <<>>, <<>>)>>
+    [] c.o = "unsparsify-sparsify" -> <<Cfg("unsparsify-f", "", <<"z", "a">>, <<>>, <<>>), Cfg("sparsify", "", <<>>, <<>>, <<>>)>>
+    [] c.o = "template-reorder"   -> <<Cfg("template", "", <<"d", "a", "z">>, <<>>, <<>>), Cfg("reorder", "-e", <<"a">>, <<>>, <<>>)>>
+    [] c.o = "unsparsify-regularize" -> <<Cfg("unsparsify", "", <<>>, <<>>, <<>>), Cfg("regularize", "", <<>>, <<>>, <<>>)>>
+    [] c.o = "nest-fields-back"   -> <<Cfg("nest-fields", "explode-values-fields", <<"a">>, Semi, <<>>),
+                                      Cfg("nest-fields", "implode-values-fields", <<"a">>, Semi, <<>>)>>
+    [] c.o = "nest-records-back"  -> <<Cfg("nest-explode-records", "explode-values-records", <<"a">>, Semi, <<>>),
+                                      Cfg("nest-implode-records", "implode-values-records", <<"a">>, Semi, <<>>)>>
+    [] c.o = "nest-pairs-cut"     -> <<Cfg("nest-fields", "explode-pairs-fields", <<"a">>, Semi, <<>>), Cfg("cut", "-x", <<"p">>, <<>>, <<>>)>>
+    [] c.o = "nest-fields-rename" -> <<Cfg("nest-fields", "explode-values-fields", <<"a">>, Semi, <<>>), Cfg("rename", "", <<"a_2", "x">>, <<>>, <<>>)>>
+    [] c.o = "reshape-back"       -> <<Cfg("reshape-w2l", "-i", <<"a", "b">>, <<"k", "v">>, <<>>), Cfg("reshape-l2w", "-s", <<>>, <<"k", "v">>, <<>>)>>
+    [] c.o = "reshape-cut"        -> <<Cfg("reshape-w2l", "-i", <<"b", "c">>, <<"k", "v">>, <<>>), Cfg("cut", "-x", <<"v">>, <<>>, <<>>)>>
+Parts(c) == IF c.v = "chain" THEN ChainParts(c) ELSE <<c>>
+\* the outcomes of a first verb as a finite set (where it has one)
+FiniteStream(c, s) ==
+  /\ InDomain(c, s)
+  /\ c.v \in PerRecord \cup MultiEmit \cup {"regularize", "unsparsify"}
+  /\ c.v \in PerRecord => \A i \in 1..Len(s) : Finite1(c, s[i])
+OutSet(c, s) == CASE c.v = "regularize" -> {Regularized(s)}
+                  [] c.v = "unsparsify" -> {Unsparsified(c, s)}
+                  [] OTHER -> StreamCands(c, s)
+Allowed(c, s, out) ==
+  IF c.v # "chain" THEN Allowed0(c, s, out)
+  ELSE LET c1 == ChainParts(c)[1]  c2 == ChainParts(c)[2] IN
+       FiniteStream(c1, s) => \E mid \in OutSet(c1, s) : Allowed0(c2, mid, out)
+Expected(c, s) ==
+  IF c.v # "chain" THEN Expected0(c, s) ELSE Expected0(ChainParts(c)[2], Expected0(ChainParts(c)[1], s))
+Deterministic(c, s) ==
+  IF c.v # "chain" THEN Deterministic0(c, s)
+  ELSE Deterministic0(ChainParts(c)[1], s) /\ Deterministic0(ChainParts(c)[2], Expected0(ChainParts(c)[1], s))
+
 (***************************************************************************)
 (* Laws of C12 as theorems of these definitions (checked by TLC over the     *)
 (* whole bounded space in VerbsRestructureMC.tla)                            *)
 (***************************************************************************)
-Cfg(v, o, f, p, w) == [v |-> v, o |-> o, f |-> f, p |-> p, w |-> w]
 \* cut -f F and cut -x -f F split each record into complementary parts
 CutComplement(r, F) ==
   LET a == CHOOSE o \in Cands1(Cfg("cut", "-f", F, <<>>, <<>>), r) : TRUE
@@ -463,6 +509,15 @@ ReshapeLongWideLong(c, s, F) ==   \* c: reshape-l2w; F: the keys as an -i list
   => LET cw == [c EXCEPT !.v = "reshape-w2l", !.o = "-i", !.f = F]
          wide == Expected(c, s) IN
      (\A i \in 1..Len(wide) : W2LDomain(cw, wide[i])) => StreamCands(cw, wide) = {s}
+\* the inverse pairs as chains: where the premises of the round-trip laws hold and the outcome is unique, it is the input
+ChainIdentity(c, s) ==
+  (c.v = "chain" /\ c.o \in {"rename-back", "nest-fields-back", "nest-records-back", "reshape-back"} /\ Deterministic(c, s)
+     /\ LET c1 == ChainParts(c)[1]  f == NestField(c1) IN
+        CASE c.o = "rename-back" -> \A i \in 1..Len(s) : ~Has(s[i], "x")
+          [] c.o = "nest-fields-back" -> \A i \in 1..Len(s) : ImplodeIdx(s[i], f) = {}
+          [] c.o = "nest-records-back" -> \A i, j \in 1..Len(s) : (i # j /\ Has(s[i], f) /\ Has(s[j], f)) => Others1(s[i], f) # Others1(s[j], f)
+          [] c.o = "reshape-back" -> WideDomain(c1, s))
+  => Expected(c, s) = s
 \* bystander fields keep name, value text and relative order, for every verb that passes records one to one
 Bystanders(c, r, o) ==
   CASE c.v \in {"cut", "template"} ->      \* kept fields keep their text; cut without -o keeps their order
